@@ -60,6 +60,11 @@ fn roundtrip(len: usize, frag: usize, dispose: bool) -> Result<(usize, bool), St
   if holds.len() != 1 {
     return Err(format!("reader holds {} samples after all {} datagrams of one sample arrived in order", holds.len(), guard));
   }
+  let want_kind = if dispose { "dispose-by-key" } else { "data" };
+  let kind = p.reader_holds_kind(holds[0].0);
+  if kind != Some(want_kind) {
+    return Err(format!("a {want_kind} change was written, the reader holds {kind:?} (the change kind did not survive the {})", if 4 + len > frag { "fragmentation" } else { "DATA submessage" }));
+  }
   let got = &holds[0].1;
   let same = if fragmented { got == &exp } else { pad3(got, &exp) };
   if !same {
